@@ -50,6 +50,7 @@ func (g *GTPv1U) DecodeFromBytes(data []byte, df gopacket.DecodeFeedback) error 
 	if dLen < hLen {
 		return fmt.Errorf("GTP packet too small: %d bytes", dLen)
 	}
+	g.SequenceNumber, g.NPDU, g.GTPExtensionHeaders = 0, 0, g.GTPExtensionHeaders[:0]
 	g.Version = (data[0] >> 5) & 0x07
 	g.ProtocolType = (data[0] >> 4) & 0x01
 	g.Reserved = (data[0] >> 3) & 0x01
